@@ -367,7 +367,9 @@ PUMPS = {
 }
 
 
-def supervised(doc, timeout=60):
+def supervised(doc, timeout=900):
+    # (the longest pump takes ~30 s on a loaded machine and is linear in its size: a timeout of this
+    # length only fires for a genuine hang, never because the machine is busy)
     """one document in its own worker process: a crash (signal) or a hang is an outcome, not a tool error"""
     build_harness()
     try:
